@@ -124,3 +124,23 @@ Example other_preimage_on_retransmit_rejected :
                     ECirc (1,0) (AOutSettle (2,0) 7); ELinkRestart 2;
                     ECirc (1,0) (AOutSettle (2,0) 8)] = None.
 Proof. vm_compute. reflexivity. Qed.
+
+(* C08-F2 repair: the packet of a freshly committed circuit is abandoned when
+   the incoming link stops, the circuit is removed again and the replay
+   forwards the add afresh; an abandon is refused once the packet has reached
+   the outgoing link. *)
+Example abandon_then_forward_again :
+  match run Ht (init b0) [ELockIn (1,0) (Ht 7) 101000 100000 2; ECirc (1,0) (AFwd FAdd);
+                          ECirc (1,0) AAbandon; ELinkRestart 1; ECirc (1,0) (AFwd FAdd);
+                          ECirc (1,0) (AOutAdd (2,0)); ECirc (1,0) (AOpen (2,0)); ESig 2;
+                          ECirc (1,0) (AOutSettle (2,0) 7); ECirc (1,0) (AClose (2,0));
+                          ECirc (1,0) (AInSettle 7); ESig 1] with
+  | Some st => (quiescent st, fees_earned st)
+  | None => (false, 0%Z)
+  end = (true, 1000%Z).
+Proof. vm_compute. reflexivity. Qed.
+
+Example abandon_after_add_rejected :
+  run Ht (init b0) [ELockIn (1,0) (Ht 7) 101000 100000 2; ECirc (1,0) (AFwd FAdd);
+                    ECirc (1,0) (AOutAdd (2,0)); ECirc (1,0) AAbandon] = None.
+Proof. vm_compute. reflexivity. Qed.
